@@ -1,2 +1,27 @@
+//! The operator census as cases.
+
 use crate::core::*;
-pub fn cases(_args: &Args, _ev: &mut Ev) -> Vec<Case> { vec![] }
+use serde_json::json;
+
+pub fn cases(args: &Args, ev: &mut Ev) -> Vec<Case> {
+    let thorough = args.tier == Tier::Thorough;
+    let (entries, rep) = wgen::opcensus::census(thorough, if thorough { None } else { Some(2) }, args.threads);
+    ev.extra.insert(
+        "opcensus".into(),
+        json!({
+            "opcode_candidates": rep.opcode_candidates, "immediate_instances": rep.instance_count, "decodable_encodings": rep.decodable,
+            "validator_calls": rep.validator_calls, "accepted_entries": rep.accepted_entries,
+            "distinct_operator_names_accepted": rep.accepted_names.len(),
+            "names_not_accepted_with_reason": rep.not_accepted.len(),
+            "unexplained_names": rep.unexplained,
+            "operator_names_in_wasmparser_0_214": wmodel::validate::ALL_OP_NAMES_214.len(),
+        }),
+    );
+    if !rep.unexplained.is_empty() {
+        ev.note(format!("opcensus: {} operator names neither accepted nor shown feature-rejected: {:?}", rep.unexplained.len(), rep.unexplained));
+    }
+    entries
+        .iter()
+        .map(|e| Case { family: "opcensus".into(), coords: e.coords(), wasm: e.module(), cfg: json!({}) })
+        .collect()
+}
